@@ -23,10 +23,22 @@ import (
 
 type credSpecCase struct {
 	Cred    map[string][]string `json:"cred"`
+	Shape   shapeMap            `json:"shape"` // multi-valued field -> [n, k]
 	Protect bool                `json:"protect"`
 	Prior   bool                `json:"prior"`
 	Op      string              `json:"op"`
 	Refuse  bool                `json:"refuse"`
+}
+
+// shapeMap: a TLA+ function with empty domain is serialised as an empty array
+type shapeMap map[string][]int
+
+func (m *shapeMap) UnmarshalJSON(b []byte) error {
+	*m = shapeMap{}
+	if len(b) > 0 && b[0] == '[' {
+		return nil
+	}
+	return json.Unmarshal(b, (*map[string][]int)(m))
 }
 
 var credChar = map[string]string{"x": "x", "eq": "=", "LF": "\n", "CR": "\r", "NUL": "\x00", "sp": " "}
@@ -126,7 +138,7 @@ func init() {
 				for k, v := range jobs[i].spec.Cred {
 					fields[k] = base64.StdEncoding.EncodeToString([]byte(render(v)))
 				}
-				enc.Encode(map[string]interface{}{"id": i, "protect": jobs[i].spec.Protect, "prior": jobs[i].spec.Prior, "op": jobs[i].spec.Op, "fields": fields, "via_url": jobs[i].viaURL})
+				enc.Encode(map[string]interface{}{"id": i, "protect": jobs[i].spec.Protect, "prior": jobs[i].spec.Prior, "op": jobs[i].spec.Op, "fields": fields, "shape": jobs[i].spec.Shape, "via_url": jobs[i].viaURL})
 			}
 			w.Flush()
 			f.Close()
@@ -161,7 +173,7 @@ func init() {
 			}
 			report := func(assertion, why string) {
 				c.Report(core.Violation{Assertion: assertion, Fields: map[string]string{"op": jb.spec.Op, "via_url": fmt.Sprint(jb.viaURL)},
-					Detail: map[string]interface{}{"why": why, "fields": fmt.Sprintf("%q", fields), "protect": jb.spec.Protect, "op": jb.spec.Op,
+					Detail: map[string]interface{}{"why": why, "fields": fmt.Sprintf("%q", fields), "entries_and_position_of_multi_valued_fields": jb.spec.Shape, "protect": jb.spec.Protect, "op": jb.spec.Op,
 						"via_url": jb.viaURL, "helper_stdin": fmt.Sprintf("%q", stdin), "error": str("err")}})
 			}
 			if str("panic") != "" {
@@ -194,6 +206,16 @@ func init() {
 			got := strings.Split(strings.TrimSuffix(string(stdin)[len(pre):], "\n"), "\n")
 			want := []string{}
 			for k, v := range fields {
+				if sh, ok := jb.spec.Shape[k]; ok && len(sh) == 2 {
+					for e := 1; e <= sh[0]; e++ {
+						if e == sh[1] {
+							want = append(want, k+"="+v)
+						} else {
+							want = append(want, k+"=x")
+						}
+					}
+					continue
+				}
 				want = append(want, k+"="+v)
 			}
 			sort.Strings(got)
@@ -214,7 +236,7 @@ func init() {
 		c.Set("passed_verbatim", passedOK)
 		c.Set("rejected_by_url_parser", urlRejected)
 		c.Set("exhaustive", true)
-		c.Set("rule", "cases = every credential map of spec/CredProto.tla with <= MaxHot fields carrying a non-plain value of length <= MaxLen over {x,=,LF,CR,NUL,space}, x protectProtocol x {fresh context, context that first served another URL whose own setting switches protection off} x {fill,approve,reject}; username/path cases are also run through url.Parse of a percent-encoded URL; distinct = distinct spec states")
+		c.Set("rule", "cases = every credential map of spec/CredProto.tla with <= MaxHot fields carrying a non-plain value of length <= MaxLen over {x,=,LF,CR,NUL,space} (for wwwauth[] and state[]: as any entry of a list of up to MaxEntries entries), x protectProtocol x {fresh context, context that first served another URL whose own setting switches protection off} x {fill,approve,reject}; username/path cases are also run through url.Parse of a percent-encoded URL; distinct = distinct spec states")
 		for i := 0; i < len(jobs); i += len(jobs)/5 + 1 {
 			f := map[string]string{}
 			for k, v := range jobs[i].spec.Cred {
